@@ -526,7 +526,8 @@ void simk_yield(void)
 	step();
 	T[me].state = ST_RUNNABLE;
 	switch_to(pick(me));
-	if (deliverable(me) && !T[me].in_sighandler)
+	/* nested delivery is governed by the masks alone (sa_mask of the running handler), as in the kernel */
+	if (deliverable(me))
 		deliver_signals(0);
 }
 
